@@ -181,6 +181,12 @@ class SeriesOps:
             # s.apply(partial(f, **k)) == s.apply(f, **k)
             f0, _a, k0 = fn.attrs["__partial__"]
             return self._series_apply(s, f0, node, {**k0, **dict(extra or {})})
+        if isinstance(fn, Obj) and fn.cls is not None and "__partial__" not in fn.attrs:
+            # s.apply(<callable object>) == s.apply(lambda x: obj(x)): the object's __call__ bound to it
+            call = self.I.find_method(fn.cls, "__call__")
+            if call is not None:
+                call.bound_self = fn
+                fn = call
         if isinstance(fn, FuncRef):
             if isinstance(fn.node, ast.Lambda) or True:
                 # evaluate the function body symbolically with the element bound to the column term
@@ -782,8 +788,12 @@ class SeriesOps:
                 return conc[0]
             if len(pos) == 2:
                 return pos[1]
+        if fn == "next" and len(pos) == 2 and isinstance(a0, tuple) and len(a0) == 5 and a0[0] == "comp" and a0[1] in ("list", "gen"):
+            # next((v for x in X if c), d) in the "some element" abstraction of a symbolic loop: v where c holds for the element, else d
+            # (the same term `r = d; for x in X: if c: r = v` evaluates to; WHICH of several matching elements is taken is not represented in either)
+            return T.ite(a0[4], a0[2], to_term(pos[1])) if a0[4] != T.TRUE else a0[2]
         if fn == "next":
-            return ("next", to_term(a0))
+            return ("next", to_term(a0)) + ((to_term(pos[1]),) if len(pos) == 2 else ())
         if fn in ("any", "all"):
             return (fn, to_term(a0))
         if fn in ("map", "filter"):
